@@ -623,10 +623,12 @@ def _load_from_disk(file_name):
 def _save_to_disk(file_name, obj, overwrite=False):
     if not overwrite and os.path.isfile(file_name):
         raise RuntimeError(f"{file_name} already exists")
-    if overwrite and os.path.isfile(file_name):
-        os.remove(file_name)
-    with open(file_name, "wb") as f:
+    # Write to a temporary file and rename it atomically: a crash must never
+    # leave a missing or partially written sample file behind
+    tmp_name = f"{file_name}.tmp"
+    with open(tmp_name, "wb") as f:
         pickle.dump(obj, f, pickle.HIGHEST_PROTOCOL)
+    os.replace(tmp_name, file_name)
 
 
 def _field2hdf5(file_handle, obj, name):
